@@ -62,9 +62,6 @@ func DecodeTuple(tuple *HeapTupleData, columns []Column) map[string]interface{} 
 			}
 		}
 		
-		prevOffset := offset
-		offset = align(offset, colAlign)
-
 		if tuple.IsNull(num) {
 			if Debug {
 				bitmapInfo := "no bitmap"
@@ -82,6 +79,10 @@ func DecodeTuple(tuple *HeapTupleData, columns []Column) map[string]interface{} 
 			result[col.Name] = nil
 			continue
 		}
+
+		// a NULL occupies neither space nor padding: align only once the column is known to be stored
+		prevOffset := offset
+		offset = align(offset, colAlign)
 
 		val, consumed := readValue(tuple.Data, offset, col.TypID, col.Len)
 		if Debug {
